@@ -45,6 +45,33 @@ static void conv_case(const char *doc, size_t n, int fmt, unsigned long ext) {
 	POOL_DRAIN();
 }
 
+static const unsigned long MODES[2] = { EXT_DEFAULT, EXT_COMPAT_SET };
+/* deep nesting below the built-in limits (1000 levels): the innermost text must still be rendered, nothing on stderr */
+static const int DN_DEPTH[5] = { 20, 60, 150, 300, 400 };     /* a list level costs two to three tree levels: 400 stays below the 1000-level export limit */
+static DString *dn_doc(int kind, int depth) {
+	DString *s = d_string_new("");
+	if (kind == 0) { for (int i = 0; i < depth; i++) { for (int j = 0; j < i; j++) d_string_append_c(s, '\t'); d_string_append(s, "* a\n"); } for (int j = 0; j < depth; j++) d_string_append_c(s, '\t'); d_string_append(s, "* qinnermost\n"); }
+	else if (kind == 1) { for (int i = 0; i < depth; i++) { for (int j = 0; j < i; j++) d_string_append_c(s, '\t'); d_string_append(s, "1. a\n\n"); } for (int j = 0; j < depth; j++) d_string_append_c(s, '\t'); d_string_append(s, "1. qinnermost\n"); }
+	else if (kind == 2) { for (int j = 0; j < depth; j++) d_string_append(s, "> "); d_string_append(s, "qinnermost\n"); }
+	else if (kind == 3) { for (int i = 0; i < depth; i++) { for (int j = 0; j < i; j++) d_string_append(s, "> "); d_string_append(s, "> a\n"); for (int j = 0; j <= i; j++) d_string_append(s, "> "); d_string_append(s, "\n"); } for (int j = 0; j <= depth; j++) d_string_append(s, "> "); d_string_append(s, "qinnermost\n"); }
+	else { d_string_append(s, "x[^f]\n\n[^f]: a\n\n"); for (int i = 1; i <= depth; i++) { for (int j = 0; j < i; j++) d_string_append_c(s, '\t'); d_string_append(s, i == depth ? "* qinnermost\n" : "* a\n"); } }
+	return s;
+}
+static void run_dn(uint64_t i) {
+	int mi = i % 2; i /= 2; int fi = i % 7; i /= 7; int di = i % 5; int kind = (int)(i / 5);
+	DString *d = dn_doc(kind, DN_DEPTH[di]);
+	POOL_INIT(); char *out = NULL; pseudo_fed = 0; srand(1);
+	K_TRY(out = mmd_string_convert(d->str, MODES[mi], TEXT_FORMATS[fi], 0));
+	if (k_exited) k_violation("exit-called:deep-nesting", "conversion of %d nested levels called exit(%d) [%s]", DN_DEPTH[di], (int)k_exit_status, FORMAT_NAMES[TEXT_FORMATS[fi]]);
+	else {
+		if (k_stderr_len()) { char eb[300]; k_stderr_read(eb, sizeof eb); k_violation("stderr-output:deep-nesting", "%d nested levels [%s]: %s", DN_DEPTH[di], FORMAT_NAMES[TEXT_FORMATS[fi]], eb); }
+		if (!out || !strstr(out, "qinnermost")) k_violation("text-lost:deep-nesting", "the innermost text of %d nested levels (kind %d) is missing from the %s output", DN_DEPTH[di], kind, FORMAT_NAMES[TEXT_FORMATS[fi]]);
+		if (out) { k_outcome(k_fnv(out, strlen(out), K_FNV0 + fi)); free(out); }
+	}
+	d_string_free(d, true); POOL_DRAIN();
+}
+static void desc_dn(uint64_t i, FILE *o) { int mi = i % 2; i /= 2; int fi = i % 7; i /= 7; int di = i % 5; int kind = (int)(i / 5); static const char *KN[] = { "bullet-staircase", "loose-enumerated-staircase", "quote-one-line", "quote-staircase", "list-in-footnote" };
+	fprintf(o, "\"construct\":\"%s\",\"depth\":%d,\"format\":\"%s\",\"mode\":\"%s\"", KN[kind], DN_DEPTH[di], FORMAT_NAMES[TEXT_FORMATS[fi]], mi ? "compat" : "mmd"); }
 #define NSP 8
 static space SP[NSP];
 static void sp_run(int k, uint64_t idx) { space_pt p = space_decode(&SP[k], idx); size_t n = space_doc(&SP[k], &p, docbuf, sizeof docbuf); conv_case(docbuf, n, p.fmt, p.ext); }
@@ -54,7 +81,6 @@ SPFN(0) SPFN(1) SPFN(2) SPFN(3) SPFN(4) SPFN(5) SPFN(6) SPFN(7)
 static const int CTX8[8] = { 0, 1, 2, 3, 4, 5, 6, 7 };
 static const int CTX4[4] = { 0, 1, 3, 4 };
 static const int CTXQ[3] = { 1, 6, 7 };
-static const unsigned long MODES[2] = { EXT_DEFAULT, EXT_COMPAT_SET };
 static const short HL[2] = { FORMAT_HTML, FORMAT_LATEX };
 
 int main(int argc, char **argv) {
@@ -73,6 +99,7 @@ int main(int argc, char **argv) {
 		{ "q_inline2", space_count(&SP[1]), run1, desc1, "qt", "inline sequences len<=2 x 8 contexts x 7 writers x {MMD,compat}" },
 		{ "q_macro2", space_count(&SP[2]), run2, desc2, "qt", "macro fragments alone and in ordered pairs x 7 writers x 8 extension sets" },
 		{ "q_inline3core", space_count(&SP[7]), run7, desc7, "qt", "inline core (60 fragments) len 3 in {list item, footnote, definition} x 7 writers, MMD" },
+		{ "q_deep_nesting", 5 * 5 * 7 * 2, run_dn, desc_dn, "qt", "5 nesting constructs (list/quote staircases, list inside a footnote) x depth {20,60,150,300,400} (below the built-in limits) x 7 writers x {MMD,compat}: innermost text rendered, nothing on stderr" },
 		{ "t_lines4core", space_count(&SP[3]), run3, desc3, "t", "one-per-kind lines len 4 x 7 writers x {MMD,compat}" },
 		{ "t_inline3", space_count(&SP[6]), run6, desc6, "t", "inline sequences len 3 x 4 contexts x 7 writers x {MMD,compat}" },
 		{ "t_lines4full", space_count(&SP[4]), run4, desc4, "t", "full line alphabet len 4 x {html,latex} x MMD" },
